@@ -5,7 +5,7 @@
    both are run against gmars on every run (hook kinds 20 / 21 and whole programs,
    with goroutine counts before and after). *)
 From GM Require Import Base Text Token Lexer Scanner ExprSpec ExprEval ForExpand Parser Compile Sim
-     C05Lexer C05Expander C05Fuel ScanProof ParserFuel EquFuel FrontEnd.
+     C05Lexer C05Expander C05Fuel ScanProof ParserFuel EquFuel SubstFuel FrontEnd.
 Open Scope N_scope.
 
 (* the property at full strength, on the model: assembling never runs out of fuel (fuel is linear in
@@ -76,8 +76,30 @@ Theorem C05_front_end_ends_partial :
 Proof. intros cfg inp. split; [apply front_end_ends|apply compile_warrior_fuel]. Qed.
 Print Assumptions C05_front_end_ends_partial.
 
-(* missing: that the fixpoint loop of expandExpression (compile.go) always ends within the fuel the model gives
-   it (number of symbols + 3 passes) once the cycle check has passed - the last step to C05_full_statement.
-   A model run that exhausts its fuel answers COutOfFuel, which the correspondence reports as a disagreement
-   with gmars, so that gap is covered by differential testing only.  Time, memory and the goroutine profile
-   are measured on the real code on every run (they are runtime facts the model cannot exhibit). *)
+(* proved, part 7: the compiler proper.  Once the cycle check has passed, every token needs at most
+   |graph|+1 substitution passes (the walk of the check bounds the nesting of EQU values: SubstFuel.walk_bounds),
+   so the substitute-until-nothing-changes loop of expandExpression ends within the model's |symbols|+3 passes;
+   the table expandExpressions returns is free of EQU names, so afterwards two passes settle any expression *)
+Theorem C05_substitution_ends_partial :
+  (forall m c line l, graph_has_cycle (build_graph (c_values c)) = Some false ->
+                      expand_expression (expand_fuel c) m c line l <> None) /\
+  (forall m values resolved labels se line l,
+     expand_expressions values (build_graph values) = Some (Some resolved) ->
+     expand_expression (expand_fuel (mkC resolved labels se)) m (mkC resolved labels se) line l <> None) /\
+  (forall cfg lines meta, compile cfg lines meta <> COutOfFuel).
+Proof. split; [exact expand_expression_acyclic|]. split; [exact expand_expression_resolved|exact compile_ends]. Qed.
+Print Assumptions C05_substitution_ends_partial.
+
+(* the property at full strength on the model: for EVERY input text and EVERY configuration, assembling ends
+   within the fuel of every loop of the model - lexer 2n+4, scanner 3n+6, expander 4n+8 per pass and at most
+   1000 passes, parser 4n+10 state functions, EQU graph walk, memoised expansion and substitution passes
+   bounded by the number of symbols - and returns an error or a warrior (cres has no third outcome besides
+   CUnmodelled, which marks expressions outside the modelled fragment of go/types.Eval) *)
+Theorem C05_assembling_terminates : C05_full_statement.
+Proof. exact compile_warrior_ends. Qed.
+Print Assumptions C05_assembling_terminates.
+
+(* not a theorem: wall-clock time, memory and the goroutine profile are facts about the Go runtime; they are
+   measured on the real code on every run (worker deadline, RSS limit, goroutine count before and after).
+   Textual EQU substitution is exponential in nesting depth in the size of the *substituted* text; the bound
+   above counts passes, not tokens (see DESIGN.md, C05). *)
